@@ -1,7 +1,7 @@
 ---------------------------- MODULE TraceConsole ----------------------------
 EXTENDS Console, Json, IOUtils, TLC
 T == ndJsonDeserialize(IOEnv.TRACE)
-VARIABLE ti
+VARIABLES ti, prompted     \* prompted: the console has printed its first prompt (it does so when it first runs)
 NoSet == {}
 (* what the driver's capturing commands see of a dispatch: built-in commands and the unknown-command handler capture nothing *)
 IsBuiltin(nm) == \E i \in 1..Len(Builtins) : Builtins[i] = nm
@@ -15,19 +15,32 @@ SameDisp(real, spec) ==
 RECURSIVE Feed(_, _, _)
 Feed(l, s, acc) == IF s = <<>> THEN [line |-> l, disps |-> acc]
                    ELSE LET r == CharF(l, Head(s)) IN Feed(r.line, Tail(s), acc \o Captured(r.disp))
-TraceInit == Init /\ ti = 1
+StartsWith(s, p) == Len(s) >= Len(p) /\ SubSeq(s, 1, Len(p)) = p
+EndsWith(s, p) == Len(s) >= Len(p) /\ SubSeq(s, Len(s) - Len(p) + 1, Len(s)) = p
+(* the output of one character: [first prompt] body [prompt], body judged by OutF's kind; pr = the console's prompt string *)
+OutOK(out, pr, o, first) ==
+  /\ (first => StartsWith(out, pr))
+  /\ LET o1 == IF first THEN SubSeq(out, Len(pr) + 1, Len(out)) ELSE out IN
+     /\ (o.prompt => EndsWith(o1, pr))
+     /\ LET body == IF o.prompt THEN SubSeq(o1, 1, Len(o1) - Len(pr)) ELSE o1 IN
+        CASE o.kind = "exact" -> body = o.text
+          [] o.kind = "empty" -> body = <<>>
+          [] o.kind = "nonempty" -> body # <<>>
+TraceInit == Init /\ ti = 1 /\ prompted = FALSE
 TraceNext ==
   /\ ti <= Len(T) /\ ti' = ti + 1
   /\ LET ev == T[ti] IN
-     CASE ev.e = "Reset" -> line' = <<>> /\ table' = Builtins /\ disp' = <<>> /\ regret' = 0 /\ nchars' = 0
-       [] ev.e = "Reg" -> Register(ev.name) /\ ev.r = regret'
-       [] ev.e = "Char" -> Char(ev.c) /\ SameDisp(ev.disp, Captured(disp')) /\ ev.line = line'
+     CASE ev.e = "Reset" -> line' = <<>> /\ table' = Builtins /\ disp' = <<>> /\ regret' = 0 /\ nchars' = 0 /\ prompted' = FALSE
+       [] ev.e = "Reg" -> Register(ev.name) /\ ev.r = regret' /\ UNCHANGED prompted
+       [] ev.e = "Char" -> /\ Char(ev.c) /\ SameDisp(ev.disp, Captured(disp')) /\ ev.line = line'
+                           /\ OutOK(ev.out, ev.pr, OutF(line, ev.c), ~prompted) /\ prompted' = TRUE     \* what the console printed
        [] ev.e = "Eval" ->                                   \* console_eval: executed once, and the injection completes
             LET f == Feed(line, ev.s, <<>>) IN
             /\ ev.done = 1 /\ SameDisp(ev.disp, f.disps) /\ ev.line = f.line
+            /\ prompted' = TRUE
             /\ line' = f.line /\ disp' = <<>> /\ UNCHANGED <<table, regret, nchars>>
        [] OTHER -> FALSE
-TraceSpec == TraceInit /\ [][TraceNext]_<<vars, ti>>
+TraceSpec == TraceInit /\ [][TraceNext]_<<vars, ti, prompted>>
 TraceAccepted ==
   LET d == TLCGet("stats").diameter IN
   IF d - 1 = Len(T) THEN TRUE ELSE Print(<<"TRACE_REJECTED_AT", d>>, FALSE)
